@@ -191,6 +191,7 @@ def stageC(c, o, rng):
 SPEC = {
     "prop_file": "Properties/C08.v",
     "gen": gen,
+    "adaptive_error": True,
     "oracle": oracle,
     "corpus_filter": lambda c: False,
     "stages": [("C", stageC, S.stageC_v, 6, 60)],
@@ -231,8 +232,9 @@ def race_runs(ctx):
     cli.BIN = exe
     try:
         for text in texts:
-            for args in (["solve", "-s", "-p", "x.inkfem"], ["solve", "-p", "-w", "x.inkfem"], ["solve", "-s", "-v", "x.inkfem"], ["pre", "x.inkfem"]):
-                for rep in range(2 if ctx.tier == "quick" else 10):
+            large = text is texts[-1] and len(texts) > 3
+            for args in (["solve", "-s", "-p", "x.inkfem"], ["solve", "-p", "-w", "x.inkfem"], ["solve", "-s", "-v", "x.inkfem"], ["pre", "x.inkfem"])[: (2 if large and ctx.tier == "quick" else 4)]:
+                for rep in range((1 if large else 2) if ctx.tier == "quick" else 10):
                     r = cli.run(ctx, args, files={"x.inkfem": text}, env={"GORACE": "halt_on_error=1"}, name="c08race", timeout=300)
                     runs += 1
                     msg = (r.stderr or "") + (r.stdout or "")
